@@ -108,7 +108,7 @@ export async function run(ctx) {
     const inst = (x) => T.ref("G", [x]);
     return [
       // literal arguments whose 32-bit hashes used to coincide: each instance needs its own variant definitions
-      { decls: [G], parsers: [["A", T.lit(0)], ["B", T.lit("")], ["C", T.lit(97)], ["D", T.lit("a")], ["E", T.lit(true)], ["F", T.lit("true")], ["H", T.lit(1.5)], ["I", T.lit(1)], ["J", T.union([T.lit(97), T.lit(98)])], ["K", T.union([T.lit("a"), T.lit("b")])], ["L", T.union([T.lit(true), T.lit(1)])], ["M", T.union([T.lit("true"), T.lit(1)])]].map(([name, x]) => ({ name, t: inst(x) })) },
+      { decls: [G], parsers: [["A", T.lit(0)], ["B", T.lit("")], ["C", T.lit(97)], ["D", T.lit("a")], ["E", T.lit(true)], ["F", T.lit("true")], ["H", T.lit(1.5)], ["I", T.lit(1)], ["J", T.union([T.lit(97), T.lit(98)])], ["K", T.union([T.lit("a"), T.lit("b")])], ["L", T.union([T.lit(true), T.lit(1)])], ["M", T.union([T.lit("true"), T.lit(1)])]].map(([name, x]) => ({ name, t: inst(x) })).concat([{ name: "ALL", t: T.obj([["a", T.lit(0)], ["b", T.lit("")], ["c", T.lit(97)], ["d", T.lit("a")], ["e", T.lit(true)], ["f", T.lit("true")], ["g", T.union([T.lit(97), T.lit(98)])], ["h", T.union([T.lit("a"), T.lit("b")])], ["i", T.lit(1.5)], ["j", T.lit(1)]].map(([k, x]) => T.prop(k, inst(x)))) }]) },
       // a string hole spans line breaks; the pattern must as well
       { decls: [], parsers: [{ name: "A", t: { k: "tpl", parts: ["a", T.kw("string")] } }, { name: "B", t: T.obj([T.prop("p", { k: "tpl", parts: [T.kw("string"), ".", T.kw("number")] })]) }] },
       // named properties next to an index signature keyed by a template literal type
